@@ -180,6 +180,10 @@ def deactivate (hs : List Handle) (i : Nat) : List Handle :=
   | some h => hs.set i ⟨h.id, false⟩
   | none => hs
 
+/-- the last `n` handles (those just created for an EPR loop construct) are deactivated -/
+def releaseLast (n : Nat) (hs : List Handle) : List Handle :=
+  hs.take (hs.length - n) ++ (hs.drop (hs.length - n)).map (fun h => ⟨h.id, false⟩)
+
 /-- NV, not sequential: handles get ids n-1, …, 0; every id ≠ 0 is allocated and initialised
 right away; `.error st` = the `assert not is_qubit_id_used(final_id)` fails (in state `st`).
 Returns the ids too. -/
@@ -272,14 +276,18 @@ def apply (c : Cfg) (st : St) : Op → St × Res
     | .error st1 => (st1, .assertion)
     | .ok (st1, ids) =>
       let arr := if c.single then List.replicate n 0 else ids
-      ({ st1 with evs := st1.evs ++ arr.flatMap (fun d => .deliver d :: bodyEvs d b),
+      -- the post routine consumed the pair's qubit: the n returned handles are deactivated
+      ({ st1 with hs := releaseLast n st1.hs,
+                  evs := st1.evs ++ arr.flatMap (fun d => .deliver d :: bodyEvs d b),
                   lastAlloc := none }, .ok)
   | .ctx _ n sequential b =>
     if !sequential && c.maxq < n then (st, .valueError)
-    else match createEnt c st n sequential with
+    else match createEnt c st n (sequential || c.single) with
       | .error st1 => (st1, .assertion)
       | .ok (st1, ids) =>
-        ({ st1 with evs := st1.evs ++ ids.flatMap (fun d => .deliver d :: bodyEvs d b),
+        -- the body consumed the pair's qubit: `_post_epr_context` releases the placeholders
+        ({ st1 with hs := releaseLast n st1.hs,
+                    evs := st1.evs ++ ids.flatMap (fun d => .deliver d :: bodyEvs d b),
                     lastAlloc := none }, .ok)
   | .flush => flushSt c st
   | .close =>
